@@ -62,6 +62,13 @@ func c10Wrappers(c *Ctx, a *sketchAnchors, rule string, part string) {
 		c.R.floor(rule, "exact-variant AddWithCount wrapper paths", n, 2)
 		return
 	}
+	if part == "MergeWith" {
+		n := checkWrapper(c, a, wrapperSpec{rule: rule, method: "MergeWith", inner: "MergeWith",
+			innerArgs: []func(*Term) bool{func(t *Term) bool { return t.Op == "field" && t.Sym == a.innerFld && t.Args[0].isParam(1) }},
+			stat:      "MergeWith", statArgs: []func(*Term) bool{func(t *Term) bool { return t.Op == "field" && t.Sym == a.statField && t.Args[0].isParam(1) }}})
+		c.R.floor(rule, "exact-variant MergeWith wrapper paths", n, 2)
+		return
+	}
 	if part == "Clear" {
 		n := checkWrapper(c, a, wrapperSpec{rule: rule, method: "Clear", inner: "Clear", stat: "Clear"})
 		c.R.floor(rule, "exact-variant Clear wrapper paths", n, 1)
